@@ -46,7 +46,7 @@ func (c19) Gen(rng *rand.Rand, tier string, i int) *sim.Scenario {
 	c.WantV6 = v6
 	host := target4
 	if v6 {
-		host = target6
+		host = pick(rng, target6, target6, "2001:db8:abcd:12:0:ffff:a00:fffe", "2001:db8::ffff:c633:644d")
 	}
 	if proto == "tcp" {
 		c.Method = pick(rng, "syn", "syn", "", "sack", "prefer_sack")
@@ -362,7 +362,7 @@ func (c17) Gen(rng *rand.Rand, tier string, i int) *sim.Scenario {
 				}
 				seen[h.From] = true
 				a := mustParse(h.From)
-				sc.DNS = append(sc.DNS, sim.DNSPlan{Addr: dnsKey(a), Script: []string{pick(rng, "names:1", "names:2", "names:1", "empty", "error", "slow:30000:1")}})
+				sc.DNS = append(sc.DNS, sim.DNSPlan{Addr: dnsKey(a), Script: []string{pick(rng, "names:1", "names:2", "names:1", "empty", dnsErr(rng), "slow:30000:1")}})
 			}
 		}
 		t := mustParse(bareTarget(sc.Calls[0].Target))
